@@ -238,6 +238,9 @@ pub struct NetCfg {
     /// application think time (see `Probe::yield_point`): non-zero = the simulated applications
     /// yield to the scheduler between body reads/writes, decided from this seed
     pub think: u64,
+    /// what `poll_data` hands to h3 is a rope of several non-contiguous segments (the trait only
+    /// promises a `Buf`; Quinn happens to return one contiguous `Bytes`)
+    pub segmented_recv: bool,
 }
 
 impl Default for NetCfg {
@@ -250,6 +253,7 @@ impl Default for NetCfg {
             stall_budget: Vec::new(),
             manual_pipes: Vec::new(),
             think: 0,
+            segmented_recv: false,
         }
     }
 }
@@ -269,6 +273,7 @@ impl NetCfg {
             stall_budget: Vec::new(),
             manual_pipes: Vec::new(),
             think: if rng.bool() { rng.next() | 1 } else { 0 },
+            segmented_recv: rng.chance(1, 3),
         }
     }
 }
@@ -1178,8 +1183,63 @@ impl SimRecv {
     }
 }
 
+/// What the simulated transport hands to h3 for received stream data: one or several
+/// non-contiguous segments (`chunk()` shows the first one only).
+#[derive(Debug, Clone, Default)]
+pub struct RecvBuf {
+    segs: std::collections::VecDeque<Bytes>,
+}
+
+impl RecvBuf {
+    pub fn whole(b: Bytes) -> Self {
+        let mut segs = std::collections::VecDeque::new();
+        if !b.is_empty() {
+            segs.push_back(b);
+        }
+        RecvBuf { segs }
+    }
+    /// cut into 2..4 segments at positions derived from the content length and a salt
+    pub fn rope(mut b: Bytes, salt: u64) -> Self {
+        let mut segs = std::collections::VecDeque::new();
+        let mut x = salt | 1;
+        let pieces = 2 + (salt % 3) as usize;
+        for _ in 1..pieces {
+            if b.len() < 2 {
+                break;
+            }
+            x = x.wrapping_mul(6364136223846793005).wrapping_add(1442695040888963407);
+            let cut = 1 + (x >> 33) as usize % (b.len() - 1);
+            segs.push_back(b.split_to(cut));
+        }
+        if !b.is_empty() {
+            segs.push_back(b);
+        }
+        RecvBuf { segs }
+    }
+}
+
+impl Buf for RecvBuf {
+    fn remaining(&self) -> usize {
+        self.segs.iter().map(|s| s.len()).sum()
+    }
+    fn chunk(&self) -> &[u8] {
+        self.segs.front().map(|s| &s[..]).unwrap_or(&[])
+    }
+    fn advance(&mut self, mut cnt: usize) {
+        while cnt > 0 {
+            let f = self.segs.front_mut().expect("advance beyond the end of a RecvBuf");
+            if cnt < f.len() {
+                f.advance(cnt);
+                return;
+            }
+            cnt -= f.len();
+            self.segs.pop_front();
+        }
+    }
+}
+
 impl quic::RecvStream for SimRecv {
-    type Buf = Bytes;
+    type Buf = RecvBuf;
 
     fn poll_data(&mut self, cx: &mut Context<'_>) -> Poll<Result<Option<Self::Buf>, StreamErrorIncoming>> {
         spin_tick("poll_data", self.side, Some(self.id));
@@ -1209,7 +1269,12 @@ impl quic::RecvStream for SimRecv {
         }
         if let Some(c) = p.chunks.pop_front() {
             p.read += c.len();
-            return Poll::Ready(Ok(Some(c)));
+            let salt = (p.read as u64) << 8 ^ self.id;
+            let segmented = n.cfg.segmented_recv && c.len() >= 2;
+            if segmented {
+                n.stat("recv_chunks_handed_over_as_a_rope");
+            }
+            return Poll::Ready(Ok(Some(if segmented { RecvBuf::rope(c, salt) } else { RecvBuf::whole(c) })));
         }
         if p.fin_delivered {
             p.fin_read = true;
@@ -1294,7 +1359,7 @@ impl<B: Buf> quic::SendStreamUnframed<B> for SimBidi<B> {
 }
 
 impl<B: Buf> quic::RecvStream for SimBidi<B> {
-    type Buf = Bytes;
+    type Buf = RecvBuf;
     fn poll_data(&mut self, cx: &mut Context<'_>) -> Poll<Result<Option<Self::Buf>, StreamErrorIncoming>> {
         self.recv.poll_data(cx)
     }
